@@ -155,3 +155,5 @@ Proof.
   destruct a, b; cbn; try congruence. intros H. apply beq_eq in H. congruence.
 Qed.
 Arguments X h%hex.
+
+Definition nonempty_b (l : bytes) : bool := match l with [] => false | _ :: _ => true end.
